@@ -154,6 +154,10 @@ partial def exprOf : Sexp → Except String Expr
   | .list [.atom "subst", g, pat, repl] => do .ok (.subst (← asBool g) (← asStr pat) (← exprOf repl) none)
   | .list [.atom "subst", g, pat, repl, tgt] => do
     .ok (.subst (← asBool g) (← asStr pat) (← exprOf repl) (some (← exprOf tgt)))
+  | .list [.atom "substre", g, re, repl] => do .ok (.substRe (← asBool g) (← regexOf re) (← exprOf repl) none)
+  | .list [.atom "substre", g, re, repl, tgt] => do
+    .ok (.substRe (← asBool g) (← regexOf re) (← exprOf repl) (some (← exprOf tgt)))
+  | .list [.atom "matchfn", e, re] => do .ok (.matchFn (← exprOf e) (← regexOf re))
   | .list [.atom "getline", lv, file] => do
     let lv' ← (match lv with
       | .atom "-" => pure none
@@ -229,6 +233,26 @@ def fileOf : Sexp → Except String File
   | .list [.atom "file", n, c] => do .ok { name := (← asStr n), content := (← asStr c) }
   | _ => .error "bad file"
 
+def operandOf : Sexp → Except String Operand
+  | .list [.atom "file", n, c] => do .ok (.file { name := (← asStr n), content := (← asStr c) })
+  | .list [.atom "assign", .atom x, v] => do .ok (.assign x (← asStr v))
+  | _ => .error "bad operand"
+
+def optsOf (l : List Sexp) : Except String (Option String × List (String × String)) :=
+  l.foldlM (fun (acc : Option String × List (String × String)) x =>
+    match x with
+    | .list [.atom "fs", v] => do pure (some (← asStr v), acc.2)
+    | .list [.atom "v", .atom name, v] => do pure (acc.1, acc.2 ++ [(name, (← asStr v))])
+    | _ => .error "bad option") (none, [])
+
+def outcomeLine (r : Except Err Outcome) : String :=
+  match r with
+  | .error .fuel => "ERR fuel"
+  | .error (.outside msg) => s!"ERR outside {msg}"
+  | .ok o =>
+    let fl := o.files.map fun (n, c) => s!" {n}={hex c}"
+    s!"OK {o.status} {hex o.stdout}{String.join fl}"
+
 def runCase (line : String) : String :=
   let toks := tokenize line.toList [] #[]
   let r : Except String String := do
@@ -241,12 +265,17 @@ def runCase (line : String) : String :=
       let files ← fs.mapM fileOf
       let stdin ← asStr si
       let extra ← xs.mapM fileOf
-      match runWith fuel.toNat p files stdin extra with
-      | .error .fuel => pure "ERR fuel"
-      | .error (.outside msg) => pure s!"ERR outside {msg}"
-      | .ok o =>
-        let fl := o.files.map fun (n, c) => s!" {n}={hex c}"
-        pure s!"OK {o.status} {hex o.stdout}{String.join fl}"
+      pure (outcomeLine (runWith fuel.toNat p files stdin extra))
+    | .list [.atom "case", fuel, prog, .list (.atom "opts" :: os), .list (.atom "operands" :: ops),
+             .list [.atom "stdin", si], .list (.atom "extra" :: xs)] => do
+      let fuel ← asInt fuel
+      let p ← progOf prog
+      let (fsOpt, vars) ← optsOf os
+      let operands ← ops.mapM operandOf
+      let stdin ← asStr si
+      let extra ← xs.mapM fileOf
+      pure (outcomeLine (runInv fuel.toNat p
+        { fsOpt := fsOpt, vars := vars, operands := operands, stdin := stdin, extra := extra }))
     | _ => .error "bad case"
   match r with
   | .ok s => s
